@@ -348,6 +348,14 @@ def _(root):
             "            arg_kwdefault = dict(getattr(arg_spec, 'kwonlydefaults') or {})\n")
 
 
+@V('signature-self-drop-guarded-by-emptiness')
+def _(root):
+    """property-preserving: the instance is dropped only when there are names at all (slicing an empty tuple is a no-op), and the inspected callable
+    is normalised through __func__-free attribute projections only"""
+    sub_all(root, ('_inspect.py',), "    if inspect.ismethod(func) and func.__self__ is not None:\n        # then it's a bound method\n        explicit = explicit[1:]",
+            "    if inspect.ismethod(func) and func.__self__ is not None and explicit:\n        # then it's a bound method\n        if arg_names:\n            explicit = explicit[1:]")
+
+
 @V('sqlite-setitem-replace-with-rollback')
 def _(root):
     """property-preserving: the sqlite archive replaces the row of an existing key inside one transaction and rolls back when the insert fails"""
